@@ -3,6 +3,8 @@ Model driver for C20.  Same op lines as harness/c20.cpp and harness/c20_diff.cpp
   apply <entry> <handlers> <items...>   -> event log of Osmium.Dispatch.apply
   filt <Class> <c|m|r> <items...>       -> "<count>: <positions>" of ItemIter.run / InIter.run
   diff <entry> <nh> <tokens...>         -> DiffIter.run / applyDiff
+  fdrive <Class> <c|m|r> <script> <n> <items...> -> itemDrive / inDrive (n is for the harness only)
+  drive <entry> <script> <tokens...>    -> Osmium.Dispatch.drive (script chars: d r i p a c s e j q = ~)
 -/
 import Osmium.Model.Dispatch
 import Driver.Common
@@ -110,6 +112,18 @@ def showDiff (posmap : Array Nat) (d : Diff) : String :=
 def dcbName : DiffCb → String
   | .node => "node" | .way => "way" | .relation => "relation"
 
+def parseDriveOp : Char → Option DriveOp
+  | 'd' => some .deref | 'r' => some .arrow | 'i' => some .inc | 'p' => some .post | 'a' => some .adv2
+  | 'c' => some .copy | 's' => some .assign | 'e' => some .derefB | 'j' => some .incB | 'q' => some .postB
+  | '=' => some .cmpEnd | '~' => some .cmpAB | _ => none
+
+def showDriveOut (posmap : Array Nat) : DriveOut → String
+  | .present (some d) => showDiff posmap d
+  | .present none => "out-of-range"
+  | .atEnd => "@"
+  | .isEnd b => s!"E{b01 b}"
+  | .equal b => s!"Q{b01 b}"
+
 def step (line : String) : String :=
   match words line with
   | "apply" :: entry :: hs :: items =>
@@ -126,6 +140,29 @@ def step (line : String) : String :=
       let nb := number bufs
       let visited := if mode == "r" then InIter.run fc nb else ItemIter.run fc nb.flatten
       s!"{visited.length}:" ++ String.join (visited.map fun p => s!" {p.1}")
+    | _, _ => "bad-op"
+  | "fdrive" :: cls :: mode :: script :: _n :: items =>
+    match parseFilterClass cls, (groups items).mapM (·.mapM parseItem), (script.toList.filter (· ≠ '.')).mapM parseDriveOp with
+    | some fc, some bufs, some ops =>
+      let nb := number bufs
+      let outs := if mode == "r" then inDrive fc nb ops else itemDrive fc nb.flatten ops
+      showLog (outs.map fun o => match o with
+        | .item (some p) => toString p
+        | .item none => "out-of-range"
+        | .atEnd => "@"
+        | .isEnd b => s!"E{b01 b}"
+        | .equal b => s!"Q{b01 b}") false
+    | _, _, _ => "bad-op"
+  | "drive" :: entry :: script :: toks =>
+    match (toks.filter (· ≠ "|")).mapM parseDiffTok, (script.toList.filter (· ≠ '.')).mapM parseDriveOp with
+    | some ts, some ops =>
+      if entry == "it" || entry == "itc" || entry == "itr" then
+        let withPos := indexed ts
+        let objs := withPos.filterMap fun p => p.2.map fun o => (p.1, o)
+        let xs := objs.map (·.2)
+        let posmap := (objs.map (·.1)).toArray
+        showLog ((drive xs ops).map (showDriveOut posmap)) false
+      else "bad-op"
     | _, _ => "bad-op"
   | "diff" :: entry :: nh :: toks =>
     match (toks.filter (· ≠ "|")).mapM parseDiffTok, nh.toNat? with
